@@ -117,6 +117,7 @@ type scionWorld struct {
 	dc             *mockDaemon
 	useForwarder   bool // replies reach the client through the real end-host forwarder on 30041
 	realDispatcher bool // ... started by StartSCIONDispatcher itself
+	srvNoDaemon    bool // the listeners were started without a reachable SCION daemon
 	// toEndhostPort: the routers hand every packet for the server to its end-host port 30041
 	// (where the service runs listeners of its own), whatever the L4 destination port
 	toEndhostPort bool
@@ -184,8 +185,17 @@ func (w *scionWorld) startServers(n int, auth bool, dscp uint8, provider *ntske.
 		// port, eight on the end-host port), gives each listener its DRKey fetcher and starts
 		// the loops; the daemon it connects to is the world's
 		simnet.Daemon = func(string) daemon.Connector { return w.dc }
+		daemonAddr := "sim-daemon"
+		if w.r.Tape.Bool(1, 4, "no-daemon-at-start") {
+			// the SCION daemon could not be reached when the service started (or none is
+			// configured): the listeners run without a connector, which to a request with an
+			// authenticator is the same as a daemon that is down
+			daemonAddr = ""
+			w.srvNoDaemon = true
+			w.r.Fault("drkey-daemon-unreachable-at-start")
+		}
 		w.net.Setup = true
-		server.StartSCIONServer(context.Background(), quietLog(), "sim-daemon",
+		server.StartSCIONServer(context.Background(), quietLog(), daemonAddr,
 			&net.UDPAddr{IP: net.ParseIP(scSrvIP), Port: scSvcPort}, dscp, provider)
 		w.net.Setup = false
 		w.r.Probe("listeners-started-by-the-service")
